@@ -52,8 +52,11 @@ Definition chk_cut_gates_current (c : cg_in * bool * outcome * bool * list bool)
   outcome_beq (fst (cg_run_interleaved i)) o &&
   bools_beq fin (if inplace then snd (cg_run_interleaved i) else repeat false (length (cg_ops i))).
 
+(* also checks the well-formedness hypothesis pp_wf of c18_skel_partition_problem on every case *)
 Definition chk_partition_problem (c : pp_in * outcome * bool) : bool :=
-  let '(i, o, u) := c in chk (api_partition_problem i) o u.
+  let '(i, o, u) := c in
+  chk (api_partition_problem i) o u &&
+  match pp_obs i with Some ob => length (pp_support i) =? length ob | None => true end.
 Definition chk_find_cuts (c : fc_in * outcome * bool) : bool :=
   let '(i, o, u) := c in chk (api_find_cuts i) o u.
 Definition chk_generate (c : gen_in * outcome * bool) : bool :=
